@@ -9,8 +9,8 @@ TRACE_CFG = "Erc20PegTrace.cfg"
 
 MANIFEST_ENTRY = dict(engine="Erc20Peg", design="§4 C10",
    technique="TLA+ spec Erc20Peg.tla: property layer (backing invariants per pair origin, exact-or-no-effect rule for every conversion path) and as-built machine (ConvertCoin, ConvertERC20, EVM post-tx hook, bank-send wrapper, ICS-20 callbacks, toggle, holder burn, thief drain, contract destruction) parameterised by five token-contract behaviours; TLC exhaustive model checking of the intended design and of the machine with the named defect hook_no_checks (compensated invariants pass, strict ones must fail); TLC-simulated behaviours and seeded random large-amount scenarios executed on the real chain (message router, real Ethereum transactions through DeliverTx so that the hook runs, the application's real ICS-20 stack); every recorded step validated by TLC against the property layer",
-   text="TLC enumerates every sequence of conversions in both directions by message, by ERC20 transfer to the module address (hook), by bank send and by IBC receive/acknowledgement/timeout, ERC20 transfers, holder burns, pair toggles, thief drains and contract destruction (2 holders + thief, amounts 1..3, both pair origins, honest / delayed-malicious / direct-balance-manipulation / self-destructed / fake-Transfer-log tokens) and proves the backing invariants and the exact-or-no-effect rule on the intended design; the same behaviours are then executed against the real keepers with the repository's compiled token contracts (thief address substituted so that the drain can be signed) and a hand-assembled log-forging token, and TLC decides from real bank supply/balances and real totalSupply()/balanceOf() calls after every step whether the pair is still backed and whether each step moved both representations by the same amount or neither.",
-   note="Bounded by the constants in specs/Erc20Peg_*.cfg; Cosmos messages run through MsgServiceRouter handlers on a cached context (baseapp.runMsgs semantics) rather than signed DeliverTx, Ethereum transactions through full DeliverTx; IBC callbacks are driven by calling the application's transfer stack from the IBC router with crafted packets (no light clients / channel handshake, outgoing MsgTransfer not driven); contract destruction is a state edit (no SELFDESTRUCT-capable artifact in the repository); a dead contract has no token side, so the backing invariants are only evaluated for living contracts.")
+   text="TLC enumerates every sequence of conversions in both directions by message, by ERC20 transfer to the module address (hook), by bank send and by IBC receive/acknowledgement/timeout (both pair origins), ERC20 transfers, approvals, holder burns, pair toggles, thief drains and contract destruction (2 holders + thief, amounts 1..3, both pair origins, honest / delayed-malicious / direct-balance-manipulation / self-destructed / fake-Transfer-log tokens) and proves the backing invariants and the exact-or-no-effect rule on the intended design; the same behaviours are then executed against the real keepers with the repository's compiled token contracts (thief address substituted so that the drain can be signed) and a hand-assembled log-forging token, and TLC decides from real bank supply/balances and real totalSupply()/balanceOf() calls after every step whether the pair is still backed and whether each step moved both representations by the same amount or neither.",
+   note="Bounded by the constants in specs/Erc20Peg_*.cfg; Cosmos messages run through MsgServiceRouter handlers on a cached context (baseapp.runMsgs semantics) rather than signed DeliverTx, Ethereum transactions through full DeliverTx; IBC callbacks are driven by calling the application's transfer stack from the IBC router with crafted packets (no light clients / channel handshake; outgoing MsgTransfer is not driven, the coins in flight of an ERC20-origin pair are put into the channel escrow account by an environment step); contract destruction is a state edit (no SELFDESTRUCT-capable artifact in the repository); a dead contract has no token side, so the backing invariants are only evaluated for living contracts.")
 
 PROCS = 4
 
@@ -51,7 +51,7 @@ def _scan(path, c, counts, classes):
             if o["ev"] != "reset":
                 p, q = prev["post"], o["post"]
                 kind = p["kind"]
-                coin_moved = _changed(p, q, ("escrowCoins", "coinSupply", "coinBal"))
+                coin_moved = _changed(p, q, ("escrowCoins", "coinSupply", "coinBal", "ibcEscrow"))
                 tok_moved = _changed(p, q, ("tokenSupply", "tokenBal"))
                 conv = o["ok"] and coin_moved and (tok_moved or p["behaviour"] == "fakeTransferLog")
                 path_ = {"convert_coin": "msg_c2t", "convert_erc20": "msg_t2c", "evm_transfer": "hook", "bank_send": "bank",
@@ -59,6 +59,11 @@ def _scan(path, c, counts, classes):
                 if conv and path_:
                     counts["%s:%s" % (kind, path_)] = counts.get("%s:%s" % (kind, path_), 0) + 1
                     counts["conv:%s:%s" % (p["behaviour"], path_)] = counts.get("conv:%s:%s" % (p["behaviour"], path_), 0) + 1
+                if o["ev"] == "evm_approve" and o["ok"]:
+                    counts["%s:approve_%s" % (kind, "module" if o["args"]["spender"] == "m" else "holder")] = \
+                        counts.get("%s:approve_%s" % (kind, "module" if o["args"]["spender"] == "m" else "holder"), 0) + 1
+                if o["ev"] == "ibc_out" and o["ok"]:
+                    counts["%s:ibc_out" % kind] = counts.get("%s:ibc_out" % kind, 0) + 1
                 if o["ev"] in ("holder_burn", "thief_drain", "toggle", "destroy") and o["ok"] and (tok_moved or o["ev"] in ("toggle", "destroy")):
                     counts["%s:%s" % (kind, o["ev"])] = counts.get("%s:%s" % (kind, o["ev"]), 0) + 1
                 counts["steps"] = counts.get("steps", 0) + 1
@@ -72,7 +77,8 @@ def _scan(path, c, counts, classes):
 
 
 FLOORS = ["coin:msg_c2t", "coin:msg_t2c", "erc20:msg_c2t", "erc20:msg_t2c", "coin:hook", "erc20:hook", "coin:bank", "erc20:bank",
-          "coin:ibc_recv", "coin:ibc_ack", "coin:ibc_timeout", "coin:holder_burn", "erc20:thief_drain", "erc20:destroy",
+          "coin:ibc_recv", "coin:ibc_ack", "coin:ibc_timeout", "erc20:ibc_recv", "erc20:ibc_ack", "erc20:ibc_timeout", "erc20:ibc_out",
+          "coin:approve_module", "coin:approve_holder", "erc20:approve_module", "erc20:approve_holder", "coin:holder_burn", "erc20:thief_drain", "erc20:destroy",
           "coin:toggle", "erc20:toggle", "conv:delayedMalicious:hook", "conv:directManipulation:hook", "conv:fakeTransferLog:hook"]
 
 
@@ -96,7 +102,7 @@ def run(c):
     # 2. spec -> code: behaviours of the model as scripts
     depth = 8 if quick else 12
     scripts = []
-    for kind, num in (("coin", 140 if quick else 1200), ("erc20", 260 if quick else 2400)):
+    for kind, num in (("coin", 140 if quick else 1200), ("erc20", 260 if quick else 2400), ("erc20ibc", 120 if quick else 1000)):
         cfgname = "Erc20Peg_sim_%s.cfg" % kind
         if not quick:
             txt = open(os.path.join(wd, cfgname)).read().replace("MaxLen = 8", "MaxLen = %d" % depth)
@@ -188,7 +194,7 @@ def run(c):
         "TLC 1.8.0, the Json community module and the BigNum Java override (java/BigNum.java) are trusted",
         "the projection in harness/erc20peg.go reads bank supply/balances through the bank keeper and totalSupply()/balanceOf()/allowance() through real read-only EVM calls; the pair registry through the erc20 keeper",
         "MsgConvertCoin / MsgConvertERC20 / bank MsgSend run through MsgServiceRouter handlers on a cached context (as baseapp.runMsgs does); ERC20 transfer / burn / transferFrom are signed Ethereum transactions through DeliverTx (ante handler, hook included)",
-        "IBC receive / acknowledgement / timeout are driven by calling the application's transfer stack (erc20 middleware, packet-forward middleware, ICS-20 module) obtained from the IBC router with crafted packets on a cached context that is written exactly when core IBC would write it; light clients, channel handshakes and outgoing MsgTransfer are not exercised",
+        "IBC receive / acknowledgement / timeout are driven by calling the application's transfer stack (erc20 middleware, packet-forward middleware, ICS-20 module) obtained from the IBC router with crafted packets on a cached context that is written exactly when core IBC would write it; light clients, channel handshakes and outgoing MsgTransfer are not exercised (ibc_out emulates only its escrow half for ERC20-origin pairs)",
         "pairs are registered and toggled through the x/erc20 governance proposal handler on the deliver state, not through a voted proposal",
         "the thief address hard-coded in ERC20MaliciousDelayed / ERC20DirectBalanceManipulation is replaced in the creation bytecode by an address whose key the harness holds",
         "contract destruction is a state edit (statedb Suicide + Commit, as in the repository's own tests)",
